@@ -589,6 +589,7 @@ impl<'a> ExpandedSelection<'a> {
             if fields.peek().is_none() {
                 let item = quote! {
                     #response_derives
+                    #[serde(crate = #serde_path)]
                     #[serde(tag = "__typename")]
                     pub enum #struct_name {
                         #(#on_variants),*
@@ -605,6 +606,7 @@ impl<'a> ExpandedSelection<'a> {
 
                 let on_enum = quote!(
                     #response_derives
+                    #[serde(crate = #serde_path)]
                     #[serde(tag = "__typename")]
                     pub enum #enum_name {
                         #(#on_variants,)*
